@@ -82,7 +82,7 @@ func files(root string) {
 }
 
 func newServer() (*fixture.Server, error) {
-	return fixture.New(fixture.Options{Agreement: "the agreement\r", Board: strings.Repeat("board line\r", 300), Files: files,
+	return fixture.New(fixture.Options{Agreement: "the agreement\r", Board: strings.Repeat("board line\r", 300), Files: files, PreserveForks: true, // uploaded information and resource forks are stored, so that they are part of the compared outcome
 		NewsYAML: "Categories:\n  cat:\n    Type: [0, 3]\n    Name: cat\n    Articles: {}\n    SubCats: {}\n"})
 }
 
